@@ -344,6 +344,17 @@ struct Gen {
    int literal()
    {
       Step st { X_LITERAL }; st.a = pick(types);
+      if (o.control_bytes && rng.chance(12)) {
+         // a spelling that fills its storage granules exactly (8, 24, 40 bytes) and ends in a byte the printer escapes (or a digit),
+         // followed in program order by a word whose length reads as an ASCII digit when taken for a character: what lies behind
+         // the spelling in the Lexicon's string storage differs between two constructions of the same program
+         const std::size_t n = 8 + 16 * rng.below(3);
+         for (std::size_t k = 0; k + 1 < n; ++k) st.str += char('a' + rng.below(26));
+         st.str += char(rng.chance(80) ? rng.below(4) : ('0' + rng.below(10)));
+         int lit = push(st);
+         Step nb { N_IDENT }; nb.str = "n" + std::to_string(serial++); nb.str.resize(48 + rng.below(10), 'z'); push(nb);
+         return lit;
+      }
       if (o.control_bytes && rng.chance(40)) { int n = 1 + int(rng.below(6)); for (int k = 0; k < n; ++k) st.str += char(rng.chance(60) ? rng.below(32) : rng.below(256)); }
       else st.str = std::to_string(rng.below(1000));
       return push(st);
